@@ -150,31 +150,52 @@ CHECKS["C13"] = dict(
              "+ translator for switch tables/constants + differential whole-program correspondence in real temporary home directories with post-run directory scan",
    design="DESIGN.md §2 C13")
 CHECKS["C14"] = dict(
-   text="Theorems over ALL recipients, report bytes, sender forms and configurations about the Lean model Nq.Bounce of qmail-send.c "
+   text="Theorems over ALL recipients, report bytes, sender forms, channels and configurations about the Lean model Nq.Bounce of qmail-send.c "
         "stripvdomprepend()/addbounce()/del_dochan()/getcontrols()/injectbounce(): each addbounce call is exactly one paragraph that begins with "
         "the recipient line (LF shown as _), the bounce file and the queued notice contain exactly one paragraph per failed recipient in order, "
-        "the report is shown byte for byte up to LF->/ and the original message is appended; the named address undoes exactly what rewrite() did "
-        "(nothing for a locals domain, else the virtual-user prefix, else the governing virtualdomains entry's prefix); the notice goes with empty sender to the VERP base address, a failed bounce "
-        "to doublebounceto@doublebouncehost from #@[], a failed double bounce nowhere, so every chain has length <= 3; injectbounce removes "
+        "the report is shown byte for byte up to LF->/ and the original message is appended. NAMED ADDRESS (channel-aware since the repair 2f09320: addbounce(id,recip,report,flagstrip), del_dochan passes c == 0): "
+        "what addbounce names equals the rule namedRecipient for every table, recipient and flag - remote channel: the stored recipient as it is; local channel: as is for a locals domain, else the virtual-user cut, "
+        "else the governing domain/wildcard/catch-all entry's prefix removed (C14_names, C14_strip). END TO END against C10's model of rewrite() (Nq.Rewrite.rewrite, every configuration incl. percent hack and default host): "
+        "if rewrite routes recipient r to (channel, stored) then addbounce(stored, flagstrip = channel is local) names the routed address (rewrite c r).addr - r itself, r@envnoathost or its percent-hack form, C14_routed_address - and its paragraph begins "
+        "<that address>: (C14_bounce_names_routed_address, C14_bounce_paragraph_routed): unconditionally on the remote channel and for locals; for a recipient that got a prefix under the explicit non-ambiguity hypothesis that the only "
+        "virtual-user reading of prefix-address is the address (true for a dash-free prepend of the address's own entry); C14_undo_ambiguous shows the hypothesis cannot be dropped (two addresses rewritten to the same local string), "
+        "C14_channel_matters that the flag cannot (the repaired finding on concrete bytes). "
+        "The notice goes with empty sender to the VERP base address, a failed bounce "
+        "to doublebounceto@doublebouncehost from #@[] (getcontrols' address = specDoubleBounceTo of the control-file bytes: first line, trailing blanks removed, defaults postmaster / me / literal), a failed double bounce nowhere, so every chain has length <= 3; injectbounce removes "
         "bounce/<id> only after the notice was queued, never sends again after success and loses nothing on failure; D and expired-Z reports "
         "are recorded, others not. DAEMON LEVEL (for every event sequence the qmail-send monitor Nq.Daemon of C03/C04 accepts - any interleaving, failing calls, "
-        "crashes, restarts - with a history layer that refuses nothing): bounce/<m> is unlinked only right after a successful injection of exactly its "
-        "current content (no event on the file in between; text contains the file; envelope = bounce envelope of the sender qmail-queue accepted) or for a #@[] message; "
-        "every appended paragraph is, with multiplicity, still in the file (message stays queued), in exactly one committed bounce whose text contains it, or discarded with a #@[] "
-        "message; once info/<m> is gone none is left or dropped; a failed injection keeps the record and forbids the unlink; and every behaviour of the injectbounce "
-        "model (all 10 fault points) is a behaviour the monitor accepts, its envelope and text passing the monitor's guard. The literal in-place scan loop is proved equal to the model's. "
+        "crashes, restarts - with a history layer that refuses nothing). INDUCTIVE CONSEQUENCES OF THE HISTORY INVARIANT: the record counts (appended = in file + in committed bounces + discarded with a #@[] message, "
+        "with multiplicity; committed copies = paragraphs of the committed injections; nothing left or dropped once info/<m> is gone) - these are identities between the monitor's ghost fields noted/inFile/bounced and the history, "
+        "they count records, not text; and the TEXT clause: every committed injection contains the text appended for each of its records EXCEPT records in lostRecs (a machine crash replaced the never-fsynced bounce/<m> "
+        "by something that does not start with the old content: second documented exemption next to the #@[] discard; a crash-lost record still counts as bounced once). "
+        "RESTATEMENTS OF MONITOR GUARDS PLUS TRACE BOOKKEEPING (tied to the code only by trace replay): bounce/<m> is unlinked only right after a successful injection of exactly its "
+        "current content with the bounce envelope of the sender qmail-queue accepted, or for a #@[] message (C14_daemon_unlink_after_inject); a failed injection keeps the record and forbids the unlink (C14_daemon_retry); "
+        "envelope/sender/infix facts of C14_daemon_committed. BRIDGE: every behaviour of the injectbounce model (all 10 fault points) is a behaviour the monitor accepts, its envelope and text passing the monitor's guard. "
+        "The literal in-place scan loop is proved equal to the model's. "
         "Tied to the current source by running the real "
-        "functions (sanitised build, in-memory queue files, captured qmail-queue interface, 10 fault points, all 128 control-file combinations incl. locals) "
-        "against the compiled model on every report over {LF,x,<,>,:,0x80} up to length 7/9, every recipient over {LF,a,b,@,-,.} up to 6/7, "
-        "all sender forms, bounce->double bounce->discard chains and random cases; every injectbounce case and every whole chain is also replayed, with the bytes the real "
-        "addbounce() appended and the envelope/text the real injectbounce() queued, through the daemon monitor, which must accept it; the paragraph/envelope/chain/once oracle is evaluated on the implementation's output.",
-   note=NOTE_COMMON + "Modelled, not verified: qmail-queue behind the qmail_* interface (C07/C01), the in-memory file table, NUL-free strings. "
-        "Daemon-level theorems are about the monitor's accepted sequences; that real qmail-send runs are accepted is C03/C04's correspondence (qsim) plus, for the bounce events, this check's replay. "
+        "functions (sanitised build, in-memory queue files, 10 fault points, all 128 control-file combinations incl. locals) "
+        "against the compiled model on every report over {LF,x,<,>,:,0x80} up to length 7/9, every recipient over {LF,a,b,@,-,.} up to 6/7 (table with exact, wildcard, catch-all, domain-exception, "
+        "virtual-user, mixed-case and whole-address-exception entries) in three modes - local-channel record, remote-channel record, ORIGINAL address routed by the real rewrite() - "
+        "all sender forms with every failing recipient an original address routed by the real rewrite(), del_dochan on both channels, bounce->double bounce->discard chains, corpora and random cases; the real routing is compared with C10's model; "
+        "the paragraph/naming/end-to-end/envelope/chain/once oracle is evaluated on the implementation's output with tables and "
+        "double-bounce address computed on the spec side from the raw control-file bytes (not with the model's getcontrols). REAL qmail.c LEG: a second harness binary links the unmodified qmail.c; injectbounce() -> qmail_open() forks and execs a scripted "
+        "queue program (C07's stand-in) that records what it is given and then exits with each of 16 codes or is killed by SIGKILL/SIGTERM/SIGSEGV/SIGABRT; oracle: bounce/<id> removed and success reported only if the queue program exited 0, "
+        "the retry then delivers exactly the notice, no second notice after success. Daemon replay: every injectbounce case and every whole chain is replayed through the monitor, "
+        "which must accept it - a SYNTHETIC life: arrival, preprocessing, delivery commands, reports and marks are fabricated set-up events, only appendBounce/bounceInject/unlinkBounce carry the bytes the real "
+        "addbounce() appended and the envelope/text the real injectbounce() queued.",
+   note=NOTE_COMMON + "Finding C14-strip-exception (found by the statement audit: the spec had followed the code) is repaired by 2f09320: before it stripvdomprepend() was applied to remote recipients too - with virtualdomains "
+        "'example.com:alice' and 'alice-x@example.com:' a failing alice-x@example.com (remote, unchanged) was reported as <x@example.com>; the check flags the reverted code, the string-level alternative notes/C14-fix-3.diff "
+        "(wrong on the local channel) and a del_dochan that passes the wrong channel, each with a concrete input. "
+        "Modelled, not verified: in the main legs qmail.c is replaced by a capture of the qmail_* calls (the Q leg runs the real qmail.c with real fork/exec/wait in front of a scripted queue program; qmail.c's full discipline is C07, qmail-queue's C01), "
+        "the in-memory file table, NUL-free strings; cases have no control/percenthack and no control/envnoathost (the theorems cover both). "
+        "Daemon-level theorems are about the monitor's accepted sequences; that real qmail-send runs are accepted is C03/C04's correspondence (qsim) plus, for the three bounce events, this check's synthetic replay. "
         "At-least-once: a notice whose unlink failed is injected again (stated). Two imprecisions of the monitor found (not of qmail-send): it does not VERP-strip the sender before the #@[] test "
         "(sender '#@[]-@[]': theorem C14_daemon_verp_discard_gap, such senders are not replayed) and its paragraph-header guard ignores stripvdomprepend. "
-        "Not a theorem: that a paragraph's text names the address of its record (monitor guard + oracle only). "
-        "Two defects of stripvdomprepend vs rewrite() (virtual user entries, locals) were found by this work and are repaired (160bf54, dd724e5); the check flags the old behaviours.",
-   technique="Lean 4 proof (paragraph-reader automaton + closed form of addbounce, case analysis of injectbounce, history invariant over the daemon acceptor with trace characterisation) + exhaustive/fault-injecting differential correspondence with the C code and replay through the daemon monitor",
+        "Not a theorem: that a paragraph's text names the address of its record (monitor guard + oracle only); that the spec-side control-file reader (specVdoms/specLocals) equals the model's readfile/cmEntries "
+        "(compared on every case, DISAGREE channel; the first-line reader IS proved equal). C14_remote_as_is, C14_strip_local/_user/_removed/_kept and C14_recipient_line are corollaries that unfold the spec. "
+        "The end-to-end oracle skips a case only when the non-ambiguity hypothesis fails (counted: e2e_ambiguous_skipped). "
+        "Two earlier defects of stripvdomprepend vs rewrite() (virtual user entries, locals) were found by this work and are repaired (160bf54, dd724e5); the check flags the old behaviours.",
+   technique="Lean 4 proof (paragraph-reader automaton + closed form of addbounce, channel-aware naming vs the rule and end to end vs C10's rewrite model, case analysis of injectbounce, history invariant over the daemon acceptor with trace characterisation) + exhaustive/fault-injecting differential correspondence with the C code incl. the real rewrite() and a leg with the real qmail.c and a scripted queue program, spec-side oracle from raw control-file bytes, synthetic replay through the daemon monitor",
    design="DESIGN.md §2 C14")
 CHECKS["C15"] = dict(
    text="Theorems about the Lean model of qmail-send.c's scheduling code and prioq.c: squareroot() is the exact integer root for ALL ages 0..2^32-1 (16-step loop invariant), saturates above, "
@@ -434,15 +455,16 @@ CHECKS["C03"] = dict(
         "unlinked only when every record is finished (C03_unlink). About the report reader itself, for every state: only K finishes a recipient at report time and only D / Z-past-lifetime of an outstanding "
         "in-range delivery schedules a bounce paragraph (C03_report_other, C03_note_origin). Guard readbacks of the monitor, tied to the code only by trace replay: a paragraph consumes such a scheduled "
         "note (C03_paragraph_needs_report), bounce/<m> is unlinked only after a last successful injection or for an accepted sender #@[] (C03_bounce_removed; WHAT was injected last is C14's daemon layer). "
-        "Tied to the code by replaying the traces of the real qmail-send and qmail-clean mains under an in-memory POSIX simulator (scripted spawners, ~4900/130000 seeded histories: signals, single failing "
-        "calls incl. a sweep over every call of qmail-send that touches info/local/remote/bounce/todo and every unlink of qmail-clean in slot-reusing multi-message histories, process/machine crashes, "
+        "Tied to the code by replaying the traces of the real qmail-send and qmail-clean mains - and, for every bounce injection, of the REAL qmail.c (qmail_open/put/fail/from/to/close, its child branch included) driving the "
+        "REAL qmail-queue main through simulated pipe/fork/exec/wait, the bounce being what qmail-queue commits to the queue and an ordinary message of the history from then on - under an in-memory POSIX simulator (scripted spawners, ~5300/130000 seeded histories: signals, single failing "
+        "calls incl. a sweep over every call of qmail-send that touches info/local/remote/bounce/todo (among them open/read of bounce/<m> and mess/<m> inside injectbounce), every unlink of qmail-clean and system calls of the qmail-queue child in slot-reusing multi-message histories, process/machine crashes, "
         "restarts after crashes and after clean stops at every interesting select, spawner limit bytes and concurrency over 0..255 with up to 280 recipients, withheld reports, expired messages) through "
         "the monitor (after a process crash bounce/<m> may differ from the model only by an interrupted addbounce; no file may vanish), and by an independent accounting oracle on each concrete run, keyed by "
         "RECORD (message, channel, byte offset, generation): K read for that record, or still T at that offset, or in todo/<m>, or its paragraph in bounce/<m> with info/<m>, or its paragraph header in the "
         "text of a bounce of THAT message queued with the envelope of the accepted sender (any other envelope is itself a violation), or exempt because its own paragraph was discarded with the file of a "
         "#@[] message or was in the file before a machine crash and not after; plus: no bounce paragraph without a D report or a Z read while clock > birth + lifetime, no completion mark for a record that "
         "has neither a K nor its paragraph.",
-   note=_DAEMON_NOTE + " Known monitor imprecisions (not exercised by the harness configuration): the #@[] test uses the unstripped sender (VERP '#@[]-@[]'), the paragraph header uses the channel-file "
+   note=_DAEMON_NOTE_REAL + " Known monitor imprecisions (not exercised by the harness configuration): the #@[] test uses the unstripped sender (VERP '#@[]-@[]'), the paragraph header uses the channel-file "
         "address (stripvdomprepend), crashBounce exempts all paragraphs of a damaged file although a half-lost file may keep early ones (the observer is exact per paragraph).",
    technique="Lean 4 proof (inductive accounting invariant over a protocol monitor, closed under crash/restart events) + trace-replay correspondence with the real daemon under a simulated libc",
    design="DESIGN.md §2 C03/C04, Appendix A")
